@@ -563,7 +563,14 @@ class Reader:
             visit(node, key)
 
     def symbol_break(self, key, node, where):
-        # did the module's own string contain the line end, or was it inserted by line wrapping?
+        """A single-quoted string that does not stay on one line.  Sub-keys:
+          value-has-line-end        the module's own string contains the line end (it was single-quoted anyway)
+          wrapped:...:len<=half-width   a string short enough to count as a symbol (len <= width/2) was broken by
+                                        line wrapping (long key / narrow width / position in a sequence)
+          wrapped:...:len>half-width    a string LONGER than width/2 was single-quoted at all and then wrapped
+                                        (the encoder's "too long to be a symbol" rule did not apply)
+          wrapped:...:len>half-width:has-double-quote   same, but the string contains '"', so the single quotes are
+                                        the fall-back quoting of a text string"""
         def strings(d):
             if isinstance(d, str):
                 yield d
@@ -572,10 +579,28 @@ class Reader:
                     yield from strings(x)
             elif isinstance(d, list) and d and d[0] == "quantity":
                 yield from strings(d[1])
-        own = any(("\n" in s or "\r" in s) and s.split()[:1] == node[2].split()[:1] for s in strings(self._cur_desc))
-        cause = "value-has-line-end" if own else "wrapped"
-        self.bad(f"symbol-string-spans-lines:{cause}:{where}",
-                 f"single-quoted string of {key!r} does not stay on one line ({cause}): {node[2][:50]!r}")
+        written = node[2]
+        norm = written.split()
+        cands = list(strings(self._cur_desc))
+        own = [s for s in cands if ("\n" in s or "\r" in s) and s.split() == norm]
+        if own:
+            self.bad(f"symbol-string-spans-lines:value-has-line-end:{where}",
+                     f"single-quoted string of {key!r} does not stay on one line (the value itself has a line end): "
+                     f"{written[:50]!r}")
+            return
+        # PDS3 replaces tabs after wrapping: compare with tabs mapped to nothing on both sides
+        def squash(x):
+            return "".join(x.split())
+        orig = [s for s in cands if squash(s) == squash(written)]
+        n = len(orig[0]) if orig else len(" ".join(norm))
+        size = "len<=half-width" if n <= self.width / 2 else "len>half-width"
+        if size == "len>half-width" and '"' in written:
+            # too long to be a symbol, but it contains a double quote: single quotes are the fall-back quoting of a
+            # text string (a different cause than a lost "too long to be a symbol" rule)
+            size += ":has-double-quote"
+        self.bad(f"symbol-string-spans-lines:wrapped:{where}:{size}",
+                 f"single-quoted string of {key!r} ({n} characters, width {self.width}) does not stay on one line "
+                 f"(broken by line wrapping): {written[:60]!r}")
 
     def run(self):
         self.global_checks()
